@@ -478,6 +478,10 @@ func (q dec) divBasic(u, v dec) {
 			// cancel out and don't affect u[j+n].
 			if n < qhl {
 				u[j+n] += c
+				if u[j+n] >= _DB {
+					// decimal words do not wrap around like binary ones
+					u[j+n] -= _DB
+				}
 			}
 			qhat--
 		}
